@@ -3,6 +3,7 @@ package packets
 import (
 	"errors"
 	"os"
+	"time"
 
 	"github.com/DataDog/datadog-traceroute/common"
 	V "github.com/DataDog/datadog-traceroute/zzverif"
@@ -109,4 +110,28 @@ func Verif_C09_frame() {
 	}
 	V.Reach("bad")
 	V.Assert(errors.As(err, &bad) || errors.As(err, &noPkt), "C09/frame-level-error-is-retryable")
+}
+
+// Verif_C08_readtimeout: getReadTimeout (the poll timeout the darwin/Windows capture handles hand to the OS) for
+// every deadline within +-15 min of the virtual clock (the model clock starts 1000 s after its zero instant, which
+// stands for the zero time.Time; real clocks are two millennia away from it), and for "no deadline": never zero or negative (a blocking
+// read), never longer than the time left when that exceeds the 100 ms floor, 1 s without a deadline.
+func Verif_C08_readtimeout() {
+	if V.Bool("noDeadline") {
+		V.Reach("no-deadline")
+		V.Assert(getReadTimeout(time.Time{}) == time.Second, "C08/read-timeout-default")
+		return
+	}
+	off := V.I64("offsetNs")
+	V.Assume(off >= -int64(15*time.Minute))
+	V.Assume(off <= int64(15*time.Minute))
+	dl := time.Now().Add(time.Duration(off))
+	r := getReadTimeout(dl)
+	V.Reach("deadline")
+	V.Assert(r >= 100*time.Millisecond, "C08/read-timeout-has-a-floor")
+	if off >= int64(100*time.Millisecond) {
+		V.Assert(int64(r) == off, "C08/read-timeout-is-the-time-left")
+	} else {
+		V.Assert(r == 100*time.Millisecond, "C08/read-timeout-has-a-floor")
+	}
 }
